@@ -197,3 +197,9 @@ impl<T> Hash for Link<T> {
         self.kind.hash(state);
     }
 }
+
+// Verification harnesses for the private items of this module (sources are
+// supplied by the verification harness at check time).
+#[cfg(kani)]
+#[path = "verif/k_link.rs"]
+mod k_link;
